@@ -58,6 +58,7 @@ Agrees(e) ==
                                 [] e.k = "closed" -> pc'[e.p] = "co_closed"
                                 [] OTHER          -> pc'[e.p] = "co_err"
     [] e.l = "src_send"    -> resp' = Append(resp, e.t)
+    [] e.l = "tl_sweep"    -> IF e.k = "u" THEN fmu' = 0 ELSE fmu' = TL /\ filters' = filters \ {e.sub} /\ e.sub \in filters
     [] OTHER -> TRUE
 
 TraceInit == Init /\ l = 2          \* line 1 is the header
